@@ -634,16 +634,37 @@ pub fn replay(file: &Value) -> bool {
         let tmp = format!("/dev/shm/gv-xproc-{}.json", std::process::id());
         std::fs::write(&tmp, serde_json::to_vec(file).unwrap()).unwrap();
         let exe = std::env::current_exe().unwrap();
+        // several fresh OS processes at once (as in the cross-process phase), each warmed with
+        // another seed
+        let mut kids = Vec::new();
+        for k in 0..8 {
+            if let Ok(c) = std::process::Command::new(&exe)
+                .args(["c13-xproc-one", &tmp, &format!("{}", 1000 + k)])
+                .stdout(std::process::Stdio::piped())
+                .stderr(std::process::Stdio::null())
+                .spawn()
+            {
+                kids.push(c);
+            }
+        }
         let mut outs = Vec::new();
-        for k in 0..4 {
-            let o = std::process::Command::new(&exe).args(["c13-xproc-one", &tmp, &format!("{}", 1000 + k)]).output().unwrap();
-            outs.push(String::from_utf8_lossy(&o.stdout).to_string());
+        for c in kids {
+            if let Ok(o) = c.wait_with_output() {
+                outs.push(String::from_utf8_lossy(&o.stdout).to_string());
+            }
+        }
+        if outs.is_empty() {
+            return false;
         }
         let _ = std::fs::remove_file(&tmp);
         return outs.iter().any(|o| *o != outs[0]);
     }
-    let a: Config = serde_json::from_value(r["config_a"].clone()).expect("config_a");
-    let b: Config = serde_json::from_value(r["config_b"].clone()).expect("config_b");
+    let Ok(a) = serde_json::from_value::<Config>(r["config_a"].clone()) else {
+        println!("replay file has no usable config_a");
+        return false;
+    };
+    // (history replays carry only one decision vector)
+    let b: Config = serde_json::from_value(r["config_b"].clone()).unwrap_or_else(|_| a.clone());
     if r["kind"] == "c13-history" {
         let field = r["field"].as_str().unwrap_or("").to_string();
         sb.materialise(&files);
